@@ -70,3 +70,16 @@ package transactional
 //gvc:  ensures exact: err == nil ==> forall(k, -0x7fffffffffffffff, 0x7fffffffffffffff, it.#count[k] == ite(tx_view(r, k) != 0, 1, 0))
 //gvc:  kf F10 exact: exists(k, -0x7fffffffffffffff, 0x7fffffffffffffff, r.ReferenceStorer.#refs[k] != 0 && (has(r.deleted, k) || r.temporal.#refs[k] != 0))
 //gvc:end
+
+// Commit (coarse): every reference pending in the transaction is written to
+// the base storage: the callback applied to each pending reference either
+// fails or leaves the base holding exactly that reference under its name
+// (property C19: after Commit the base equals the view).
+//gvc:func ReferenceStorage.Commit
+//gvc:  props C19
+//gvc:  theory int
+//gvc:  opt coarse
+//gvc:  opt frame args
+//gvc:  lit 1 requires ref != nil
+//gvc:  lit 1 ensures applied: litresult == nil ==> r.ReferenceStorer.#refs[strid(ref.n)] == ref
+//gvc:end
